@@ -34,6 +34,7 @@ PROPS = {
     "C05": dict(engine="e1", level="exploration"),
     "C06": dict(engine="e1", level="exploration"),
     "C07": dict(engine="e1", level="exploration"),
+    "C08": dict(engine="e1", level="fault_enumeration", rule="e4", evaluations_counter="crash.states", distinct="states"),
 }
 
 ENGINES = {
@@ -44,6 +45,11 @@ ENGINES = {
 }
 
 RULES = {
+    "e4": "one run = one seeded life-cycle script (database creation, start-up, genesis, 1-6 (thorough 1-12) received blocks, pool injections, refresh, "
+          "remove-invalid, announce flush, restarts, forced index/history rebuild) executed on a follower while the file image after every commit is recorded; "
+          "then EVERY commit boundary of that script, plus tape-chosen states inside commits (every ordered prefix of the dirty data pages of chosen commits, "
+          "torn pages, arbitrary page subsets, torn meta page), is restarted from (plain / forced verification / verification+reset) and caught up; "
+          "evaluations = crash states restarted from; distinct = distinct (file image, start-up variant); non-trivial = all of them (each is a different durable state)",
     "e1": "one run = one seeded history of 20-120 (thorough: 20-300) operations (inject valid/mutated/duplicate transactions, publisher block creation, "
           "block delivery in/out of order, key-holding forger blocks with header/signature/body mutations, refresh, remove-invalid, clock jumps, restarts, queries) "
           "against 1-3 real visor+bolt nodes shadowed by the reference ledger; distinct = distinct sequence of (operation kind, outcome); "
@@ -323,7 +329,9 @@ def explore(binary, prop, tier, seed, budget, workers, max_runs, scratch, spec, 
     evidence = dict(
         property_id=prop, tier=tier, seed=seed, level=spec["level"], wall_s=round(wall, 2), violations=len(new_violations),
         coverage=dict(
-            evaluations=runs, distinct_nontrivial=len(nts), rule=RULES[engine], samples=samples or [["(no sample)"]],
+            evaluations=counters.get(spec["evaluations_counter"], 0) if "evaluations_counter" in spec else runs,
+            distinct_nontrivial=len(sts) if spec.get("distinct") == "states" else len(nts), rule=RULES[spec.get("rule", engine)],
+            samples=samples or [["(no sample)"]], simulation_runs=runs,
             distinct_fingerprints=len(fps), distinct_abstract_states=len(sts), steps=steps,
             simulated_seconds=round(sim_ns / 1e9, 1), runs_per_hour=int(runs / explore_wall * 3600) if explore_wall > 0 else 0,
             explore_wall_s=round(explore_wall, 2), build_s=round(build_s, 2), workers=workers,
